@@ -8,7 +8,7 @@ const cbeTypeRep = "{0, 1, 100, 101, 102, 103, 104, 105, 106, 107, 108, 110, 111
 const cbeDataRep = "{0, 1, 2, 3, 16, 97, 127, 128, 129, 255}"
 
 func checkC07(c *Check) {
-	c.Rule = "TLC (CBEDecGen.tla over the decoder machine of CBE.tla) enumerates byte strings: every header byte/version, all 256 x 256 type-code pairs, and all strings up to the length bound over representative type codes (one per decoding shape, both planes, reserved codes) and payload bytes, each with end of input at every position; the machine is total (TLC evaluates DStep on every (state, byte|EOF)); each string is decoded by cbe.Decoder without and with rules under a watchdog: no escaped panic, no hang, and error/no-error plus the emitted events equal the machine's. The decoder->rules executions are validated as traces against Rules.tla. non-trivial = more than 3 bytes; distinct = distinct byte strings"
+	c.Rule = "TLC (CBEDecGen.tla over the decoder machine of CBE.tla) enumerates byte strings: every header byte/version, all 256 x 256 type-code pairs, and all strings up to the length bound over representative type codes (one per decoding shape, both planes, reserved codes) and payload bytes, each with end of input at every position; the machine is total (TLC evaluates DStep on every (state, byte|EOF)); each string is decoded by cbe.Decoder without and with rules under a watchdog: no escaped panic, no hang, and error/no-error plus the emitted events equal the machine's. The decoder->rules executions are validated as traces against Rules.tla. Entry points: TLC (Entry.tla, invariant Total: every call ends in a value or an error) lists every public call of package ce (universal, CBE and CTE; Decode/DecodeDocument with and without rules; the six Unmarshal functions and both Unmarshaler objects; the four Marshal functions and both Marshaler objects) x input class (empty, one byte, header only, valid, truncated, mutated, decoder-machine strings, nesting up to 3 million deep, announced lengths up to 2^64-1, random, other format, 300 thousand tokens) x template kind (nil, scalars, struct, slice, map, pointer, array, chan, func, complex, unsafe.Pointer, struct with chan, time, *big.Int, nested struct) resp. value class (unsupported kinds at top level and nested, nil pointers/maps/interfaces, pointer/map/slice cycles, deep nesting, invalid UTF-8, NaN keys, unexported fields); every call runs in a child process under a watchdog: a panic leaving the call, no return within the limit, or a dead process is a violation. non-trivial = more than 3 bytes; distinct = distinct byte strings"
 	c.Assumptions = []string{"abs/concretiser", "TLC", "decimal-float and time payloads (third-party codecs) are outside the machine (mode opaque): only absence of panic/hang and the event prefix are checked there", "byte strings declaring more than 8 MiB of array data are left to C08"}
 	n := 3
 	if c.Tier == "thorough" {
@@ -19,4 +19,5 @@ func checkC07(c *Check) {
 	runCBEDecGen(c, decGenCfg{Label: "cbe/all-type-codes", Prefix: "<<129, 0>>", TypeAlpha: "0..255", DataAlpha: "{0, 1, 255}", MaxLen: 2, WithRules: true, Timeout: to}, nil)
 	runCBEDecGen(c, decGenCfg{Label: "cbe/shapes", Prefix: "<<129, 0>>", TypeAlpha: cbeTypeRep, DataAlpha: cbeDataRep, MaxLen: n, WithRules: true, Timeout: to}, nil)
 	runCBEDecGen(c, decGenCfg{Label: "cbe/in-list", Prefix: "<<129, 1, 154>>", TypeAlpha: cbeTypeRep, DataAlpha: cbeDataRep, MaxLen: n - 1, WithRules: true, Timeout: to}, nil)
+	checkC07Entries(c)
 }
